@@ -1,7 +1,15 @@
-"""C18: regenerate what is straight-line arithmetic / literal in pdfminer/image.py as Lean:
-`align32`, and the literal tables that steer the format choice of ImageWriter.export_image
-(file extensions, BMP bit depths -> palette size)."""
+"""C18: regenerate what is straight-line arithmetic / literal in pdfminer/image.py and in the
+inline-image part of pdfminer/pdfinterp.py as Lean (Gen/ImageGen.lean):
+
+* `align32`;
+* `BMPWriter.__init__`: the bits -> ncols chain, `linesize`, `datasize`, `headersize`, and the two
+  `struct.pack` calls (format characters and the expression of every field, in order);
+* `ImageWriter.export_image`: the (bytes_per_line, bits) arguments of the three `_save_bmp` calls;
+* the literal extensions of `_save_jpeg` / `_save_bmp`;
+* `pdfinterp.image_data_size` and the table `INLINE_IMAGE_COMPONENTS`.
+"""
 import ast
+import copy
 import os
 from . import py2lean as P
 
@@ -11,7 +19,6 @@ def _method(mod, cls, name):
 
 
 def _ext_literals(fn: ast.FunctionDef):
-    """String constants passed as 2nd argument to self._create_unique_image_name in `fn`."""
     out = []
     for node in ast.walk(fn):
         if isinstance(node, ast.Call) and isinstance(node.func, ast.Attribute) and \
@@ -23,7 +30,6 @@ def _ext_literals(fn: ast.FunctionDef):
 
 
 def _ncols_table(init: ast.FunctionDef):
-    """The `if bits == 1: ncols = 2 elif bits == 8: ncols = 256 elif bits == 24: ncols = 0 else: raise` chain."""
     for node in init.body:
         if isinstance(node, ast.If):
             table = []
@@ -47,21 +53,126 @@ def _ncols_table(init: ast.FunctionDef):
     raise P.Untranslatable("BMPWriter.__init__: bits chain not found")
 
 
+class _Flatten(ast.NodeTransformer):
+    """`self.x` / `image.x` -> `x` so that the expression is over plain integer names."""
+
+    def visit_Attribute(self, node: ast.Attribute):
+        if isinstance(node.value, ast.Name) and node.value.id in ("self", "image"):
+            return ast.copy_location(ast.Name(id=node.attr, ctx=ast.Load()), node)
+        return self.generic_visit(node)
+
+
+def _int_expr(e: ast.expr, names, known=None) -> str:
+    e = _Flatten().visit(copy.deepcopy(e))
+    for n in ast.walk(e):
+        if isinstance(n, ast.Name) and n.id not in names and n.id not in (known or {}):
+            raise P.Untranslatable(f"unexpected name {n.id} in an integer expression")
+    tr = P.FuncTranslator(known or {}, default_kind="int")
+    for n in names:
+        tr.env[n] = "int"
+    return tr.expr(e, "int")
+
+
+def _assign_value(fn: ast.FunctionDef, target: str) -> ast.expr:
+    for node in fn.body:
+        if isinstance(node, ast.Assign) and len(node.targets) == 1:
+            t = node.targets[0]
+            if (isinstance(t, ast.Name) and t.id == target) or \
+                    (isinstance(t, ast.Attribute) and isinstance(t.value, ast.Name) and t.value.id == "self" and t.attr == target):
+                return node.value
+    raise P.Untranslatable(f"BMPWriter.__init__: assignment to {target} not found")
+
+
+PACK_SIZES = {"I": 4, "i": 4, "H": 2, "c": 1}
+
+
+def _pack_fields(call: ast.Call, names):
+    """[(format char, Lean Int expression)] of one struct.pack("<...", ...) call."""
+    if not (isinstance(call, ast.Call) and isinstance(call.func, ast.Attribute) and call.func.attr == "pack" and
+            isinstance(call.func.value, ast.Name) and call.func.value.id == "struct"):
+        raise P.Untranslatable("expected a struct.pack call")
+    fmt = call.args[0]
+    if not (isinstance(fmt, ast.Constant) and isinstance(fmt.value, str) and fmt.value.startswith("<")):
+        raise P.Untranslatable("struct.pack format is not a little-endian literal")
+    chars = fmt.value[1:]
+    if len(chars) != len(call.args) - 1 or any(c not in PACK_SIZES for c in chars):
+        raise P.Untranslatable(f"struct.pack format {fmt.value!r} outside the subset")
+    out = []
+    for c, a in zip(chars, call.args[1:]):
+        if c == "c":
+            if not (isinstance(a, ast.Constant) and isinstance(a.value, bytes) and len(a.value) == 1):
+                raise P.Untranslatable("'c' field is not a one-byte literal")
+            out.append((c, f"({a.value[0]} : Int)"))
+        else:
+            out.append((c, _int_expr(a, names)))
+    return out
+
+
+def _lean_fields(name: str, fields, params: str) -> str:
+    body = ", ".join(f"({ord(c)}, {e})" for c, e in fields)
+    return f"def {name} {params} : List (Nat × Int) :=\n  [{body}]\n\n"
+
+
 def generate(lean_dir: str):
     mod = P.parse_file("pdfminer/image.py")
-    out = [P.HEADER.format(src="pdfminer/image.py", ns="ImageGen")]
+    out = [P.HEADER.format(src="pdfminer/image.py and pdfminer/pdfinterp.py", ns="ImageGen")]
     tr = P.FuncTranslator({}, default_kind="int")
     out.append(tr.function(P.find_function(mod, "align32")))
     out.append("\n")
-    table = _ncols_table(_method(mod, "BMPWriter", "__init__"))
+    init = _method(mod, "BMPWriter", "__init__")
+    table = _ncols_table(init)
     out.append("/-- `BMPWriter.__init__`: bits -> number of palette entries (any other depth raises). -/\n")
     out.append("def ncolsTable : List (Nat × Nat) := [" + ", ".join(f"({b}, {n})" for b, n in table) + "]\n\n")
+    known = {"align32": "align32"}
+    out.append("/-- `self.linesize`, `self.datasize`, `headersize` of `BMPWriter.__init__`. -/\n")
+    out.append("def bmpLinesize (width bits : Int) : Int :=\n  " +
+               _int_expr(_assign_value(init, "linesize"), ["width", "bits"], known) + "\n\n")
+    out.append("def bmpDatasize (linesize height : Int) : Int :=\n  " +
+               _int_expr(_assign_value(init, "datasize"), ["linesize", "height"]) + "\n\n")
+    out.append("def bmpHeadersize (ncols : Int) : Int :=\n  " +
+               _int_expr(_assign_value(init, "headersize"), ["ncols"]) + "\n\n")
+    names = ["width", "height", "bits", "datasize", "ncols", "headersize"]
+    params = "(width height bits datasize ncols headersize : Int)"
+    out.append("/-- The fields of `struct.pack(\"<IiiHHIIIIII\", …)` / `struct.pack(\"<ccIHHI\", …)`:\n"
+               "    (ASCII code of the format character, value). -/\n")
+    out.append(_lean_fields("bmpInfoFields", _pack_fields(_assign_value(init, "info"), names), params))
+    out.append(_lean_fields("bmpFileFields", _pack_fields(_assign_value(init, "header"), names), params))
+    # export_image: the three _save_bmp calls
+    exp = _method(mod, "ImageWriter", "export_image")
+    calls = [n for n in ast.walk(exp) if isinstance(n, ast.Call) and isinstance(n.func, ast.Attribute) and
+             n.func.attr == "_save_bmp"]
+    calls.sort(key=lambda n: (n.lineno, n.col_offset))
+    if len(calls) != 3:
+        raise P.Untranslatable(f"export_image: expected three _save_bmp calls, found {len(calls)}")
+    out.append("/-- `export_image`: (bytes_per_line, bits) handed to `_save_bmp` by the 1-bit, the RGB and the\n"
+               "    gray branch, as functions of the image's width and bits per component. -/\n")
+    for i, c in enumerate(calls):
+        if len(c.args) != 5:
+            raise P.Untranslatable("_save_bmp call arity")
+        for j, nm in ((1, "width"), (2, "height")):
+            if not (isinstance(c.args[j], ast.Name) and c.args[j].id == nm):
+                raise P.Untranslatable("_save_bmp is not called with (image, width, height, …)")
+        out.append(f"def bmpBpl{i} (width bits : Int) : Int :=\n  " + _int_expr(c.args[3], ["width", "bits"]) + "\n")
+        out.append(f"def bmpDepth{i} (width bits : Int) : Int :=\n  " + _int_expr(c.args[4], ["width", "bits"]) + "\n\n")
     for meth, lean in (("_save_jpeg", "extJpeg"), ("_save_bmp", "extBmp")):
         exts = _ext_literals(_method(mod, "ImageWriter", meth))
         if len(exts) != 1:
             raise P.Untranslatable(f"ImageWriter.{meth}: expected one literal extension, found {exts}")
         out.append(f"def {lean} : List UInt8 := {P.lean_bytes(exts[0].encode('latin-1'))}\n")
+    # pdfinterp: size of unfiltered image data, colour space -> number of components
+    interp = P.parse_file("pdfminer/pdfinterp.py")
+    out.append("\n")
+    tr2 = P.FuncTranslator({}, default_kind="int")
+    out.append(tr2.function(P.find_function(interp, "image_data_size")))
+    comps = P.literal(P.find_assign(interp, "INLINE_IMAGE_COMPONENTS"))
+    if not (isinstance(comps, dict) and all(isinstance(k, str) and isinstance(v, int) and v > 0 for k, v in comps.items())):
+        raise P.Untranslatable("INLINE_IMAGE_COMPONENTS is not a dict str -> positive int")
+    out.append("\n/-- `INLINE_IMAGE_COMPONENTS`: colour space name -> number of components. -/\n")
+    out.append("def inlineComponents : List (List UInt8 × Nat) := [" +
+               ", ".join(f"({P.lean_bytes(k.encode('latin-1'))}, {v})" for k, v in comps.items()) + "]\n")
     out.append("\nend PdfVerif.Gen.ImageGen\n")
     path = os.path.join(lean_dir, "PdfVerif", "Gen", "ImageGen.lean")
     P.write_if_changed(path, "".join(out))
-    return [path]
+    # the naming model shared with C15 uses Gen/PathGen.lean: keep it current on C18 runs too
+    from . import gen_c15
+    return [path] + gen_c15.generate(lean_dir)
